@@ -97,6 +97,8 @@ var zzShapes = []zzShape{
 	// an account opened only after other accounts have been booked
 	19: {bk: []zzBk{{0, aEq, aA, 0, 0}, {4, aA, aYZ, 0, 1}}, op: []zzOp{{3, aYZ, false}}},
 	// a price graph with alternative paths (C1 in V, C2 in V, C1 in C2): findings C12-F1 / C06-F18
+	// a price declared for a day after the last transaction
+	21: {bk: []zzBk{{0, aEq, aA, 1, 0}}, pr: []zzPr{{0, 1, 0, 0}, {3, 1, 0, 1}}},
 	20: {bk: []zzBk{{1, aEq, aA, 1, -3}, {1, aEq, aA, 2, -5}}, pr: []zzPr{{0, 1, 0, 0}, {0, 2, 0, 1}, {0, 1, 2, 2}}, cyclic: true},
 }
 
